@@ -57,3 +57,37 @@ package vgirpc
 //@       (exists j int :: 0 <= j && j <= rangeindex && config.AllowedReturnOrigins[j] == o)
 //@   at call CookieAuthenticate assert [verbatim] forall o string :: has(allowedOrigins, o) ==> o == defaultAllowedReturnOrigin ||
 //@       (exists j int :: 0 <= j && j < len(config.AllowedReturnOrigins) && config.AllowedReturnOrigins[j] == o)
+
+// ---- what reaches the cookie is validated and bounded (C27) ----
+//
+// validateOriginalURL returns the server prefix, "/", or the (at most 2048-byte) URL it was given
+// — never anything longer; validateReturnTo returns "" or the unchanged URL, at most 2048 bytes,
+// http(s), and either http-localhost or an allow-listed origin (with or without its port).
+//
+//@ func validateOriginalURL
+//@   property C27
+//@   nopanic(slice)
+//@   ensures [bounded] len(result) <= 2048 || result == prefix
+//@   ensures [fallback] result == prefix || result == "/" || (len(result) <= 2048 && (len(old(u)) <= 2048 ==> result == old(u)))
+//
+//@ func validateReturnTo
+//@   property C27
+//@   ensures [bounded] result == "" || (result == u && len(u) <= 2048)
+//@   ensures [local_empty_ret1] result == ""
+//@   ensures [local_empty_ret8] result == ""
+//@   ensures [local_localhost_ret5] parsed.Scheme == "http" && result == u
+//@   ensures [local_allowed_ret6] has(allowedOrigins, origin) && allowedOrigins[origin] && (parsed.Scheme == "http" || parsed.Scheme == "https") && result == u
+//@   ensures [local_allowedport_ret7] has(allowedOrigins, originWithPort) && allowedOrigins[originWithPort] && result == u
+
+// (the PKCE state is built once; its prefix does not change afterwards: checked package-wide)
+//@ immutable oauthPkceState.prefix
+
+// pkceRedirectToOAuth: the cookie is packed from the validated URLs only, with the fresh state
+// and verifier; with a server prefix of at most 2048 bytes every field then fits its 16-bit
+// length prefix (the truncation finding recorded for packOAuthCookie is not reachable from here).
+//
+//@ func (*HttpServer).pkceRedirectToOAuth
+//@   property C27
+//@   at call packOAuthCookie assert [validated] arg0 == codeVerifier && arg1 == stateNonce && arg2 == originalURL && arg3 == returnTo
+//@   at call packOAuthCookie assert [fits] len(pkce.prefix) <= 2048 ==> len(arg2) <= 2048 && len(arg3) <= 2048
+//@   at call validateOriginalURL assert [prefix] arg1 == pkce.prefix
